@@ -12,6 +12,9 @@ use crate::sexp::{self, Sexp};
 use crate::tree::TreeInfo;
 use serde_json::json;
 
+/// above this many cancellation polls the model comparison is skipped (see `check_mode`)
+pub const MODEL_POLL_LIMIT: usize = 12000;
+
 pub struct Runner {
     pub drv: Driver,
     pub table: OracleTable,
@@ -50,9 +53,31 @@ impl Runner {
         let t0 = std::time::Instant::now();
         let ir = run_impl(&case.loaded.file, &case.source.tree, &case.source.src, case.info, cfg);
         let t1 = std::time::Instant::now();
+        // the model is an executable specification, quadratic in the number of deferred statements: very large
+        // runs (thousands of loop iterations) are checked by the direct oracles only
+        if ir.polls > MODEL_POLL_LIMIT {
+            rep.count("model-comparison-skipped:run-too-large");
+            let class = outcome_class(&ir.outcome);
+            if class == "panic" {
+                rep.fail("impl-panic", &format!("{} {} execution panics (model not run: large case)", self.prop, if cfg.lazy { "lazy" } else { "strict" }), true,
+                    json!({"tsg": case.tsg, "source": case.source.src, "mode": if cfg.lazy { "lazy" } else { "strict" }}));
+            }
+            rep.count(&format!("{}:{}", if cfg.lazy { "lazy" } else { "strict" }, class));
+            return ModeResult { class, run: ir, model: None };
+        }
         let model = run_model(&mut self.drv, &mut self.table, case.mi, cfg);
         rep.count_n("time-ms:implementation", (t1 - t0).as_millis() as usize);
-        rep.count_n("time-ms:model", t1.elapsed().as_millis() as usize);
+        let model_ms = t1.elapsed().as_millis() as usize;
+        rep.count_n("time-ms:model", model_ms);
+        if model_ms > 2000 {
+            rep.count("slow-model-cases(>2s)");
+            if let Ok(path) = std::env::var("TSG_SLOW_LOG") {
+                use std::io::Write;
+                if let Ok(mut f) = std::fs::OpenOptions::new().create(true).append(true).open(path) {
+                    let _ = writeln!(f, "=== {} ms lazy={}\n{}\n--- source\n{}", model_ms, cfg.lazy, case.tsg, case.source.src);
+                }
+            }
+        }
         let class = outcome_class(&ir.outcome);
         let mode = if cfg.lazy { "lazy" } else { "strict" };
         let p = self.prop.clone();
